@@ -17,6 +17,7 @@ CONSTANTS
   Eagers = {FALSE}
   Holds = {0}
   HoldFors = {0}
+  Situations = FALSE
   Algo = "abstract"
   Impl = "asis"
   Sampling = FALSE
